@@ -5,6 +5,8 @@ import (
 	"io"
 	"os"
 
+	"github.com/tormoder/fit"
+
 	"verifharness/lib"
 	"verifharness/ref"
 )
@@ -164,12 +166,24 @@ func c11Run(c *lib.Ctx, rng *lib.Rand, idx uint64, nfiles int, large bool) {
 				continue // the intact stream
 			}
 			for _, ep := range lib.EntryPoints {
-				for _, ch := range chunkers {
+				for ci, ch := range chunkers {
 					r := &lib.Reader{Data: stream, Limit: cut, Fault: fault >= 1, FaultErr: faultKinds[fault].err, Ch: ch}
 					var res lib.CallResult
-					o := lib.Guard(func() { res = lib.Call(ep, r) })
+					// every other offset, the decoding entry points run with all options on (second
+					// chunker only): error and messages must be the same, and the unknown lists of
+					// the partial File must cover what was complete before the cut
+					var opts []fit.DecodeOption
+					c11WithOpts = false
+					if ci == len(chunkers)-1 && cut%2 == 1 && (ep == "Decode" || ep == "DecodeChained") {
+						opts = []fit.DecodeOption{fit.WithUnknownFields(), fit.WithUnknownMessages(), fit.WithLogger(&countingLogger{})}
+						c11WithOpts = true
+					}
+					o := lib.Guard(func() { res = lib.Call(ep, r, opts...) })
 					c.Eval()
 					where := fmt.Sprintf("%s, %s at offset %d of %d, %s reads", ep, faultKinds[fault].name, cut, len(stream), ch)
+					if c11WithOpts {
+						where += ", all options on"
+					}
 					if o.Panicked || o.Hang {
 						c.Violation(stream, "%s: panicked/hung: %s", where, o.Panic)
 						return
@@ -197,6 +211,9 @@ type partialKey struct {
 	plan *ref.Plan
 	k    int
 }
+
+// c11WithOpts: the call being judged ran with all decode options on (workers are single-threaded).
+var c11WithOpts bool
 
 // partialCache: many cut offsets share the same number of complete records.
 var partialCache = map[partialKey]*lib.Expectation{}
@@ -257,6 +274,28 @@ func partialOK(c *lib.Ctx, stream []byte, where string, f c11File, cut int, got 
 		return false
 	}
 	c.Count("partial_files_compared", 1)
+	if c11WithOpts {
+		if !got.HasUF || !got.HasUM {
+			c.Violation(stream, "%s: the partial File has a nil unknown list although both options are on and %d records were complete before the cut", where, k)
+			return false
+		}
+		hi, err := lib.Expect(f.plan, lib.ExpectOpts{UpTo: k + 1})
+		if err != nil {
+			c.Violation(stream, "harness: model failed: %v", err)
+			return false
+		}
+		// the library counts a message when its data record starts: between the model of the
+		// complete records and the model with the cut record included
+		if msg := boundsUF(got.UnknownFields, ex.Content.UnknownFields, hi.Content.UnknownFields); msg != "" {
+			c.Violation(stream, "%s: unknown fields of the partial File do not cover the %d records complete before the cut: %s (reported %v)", where, k, msg, got.UnknownFields)
+			return false
+		}
+		if msg := boundsUM(got.UnknownMessages, ex.Content.UnknownMessages, hi.Content.UnknownMessages); msg != "" {
+			c.Violation(stream, "%s: unknown messages of the partial File do not cover the %d records complete before the cut: %s (reported %v)", where, k, msg, got.UnknownMessages)
+			return false
+		}
+		c.Count("partial_files_with_unknown_lists_compared", 1)
+	}
 	return true
 }
 
